@@ -138,6 +138,39 @@ def enc_for(case):
     return enc, ne
 
 
+@contextlib.contextmanager
+def observed_region():
+    """the region classification of `Run.region` for compiles made by other means (the command line in-process) inside
+    the block: yields a function that names the region of everything run so far"""
+    import req_compile.dists as D
+    overw = {"n": 0}
+    orig_add_reason = D.DependencyNode.add_reason
+
+    def add_reason(self_, node, reason):
+        old = self_.dependencies.get(node)
+        if node in self_.dependencies and old is not None and reason is not None and str(old) != str(reason) \
+                and (set(old.extras) != set(reason.extras) or str(old.specifier) != str(reason.specifier)):
+            overw["n"] += 1
+        return orig_add_reason(self_, node, reason)
+
+    D.DependencyNode.add_reason = add_reason
+    try:
+        with GL.observe_compile() as o:
+            def region():
+                if overw["n"]:
+                    return "edge-label-overwritten"
+                if o["invalidated_self_dep"]:
+                    return "self-dependent-invalidated"
+                if o["invalidated_on_stack"]:
+                    return "invalidated-on-stack"
+                if o["walkback"]:
+                    return "walk-back"
+                return "clean"
+            yield region
+    finally:
+        D.DependencyNode.add_reason = orig_add_reason
+
+
 class Run:
     """One execution of the real perform_compile."""
 
